@@ -289,3 +289,39 @@ func VerifC03_FastpathAgreesWithServer() {
 }
 
 func init() { vHarness["VerifC03_FastpathAgreesWithServer"] = VerifC03_FastpathAgreesWithServer }
+
+// C07: a structurally valid DHCP request cut at every possible length inside / after the BOOTP header, with an
+// arbitrary option area and arbitrary cache contents: no access outside the frame, PASS leaves it untouched.
+func VerifC07_DHCPTruncated() {
+	vBPFMapsMode("null") // empty caches: every lookup path is walked to its miss (cache hits are covered by the C03 harness)
+	tags := ndPick("tags", 3)
+	full := verifFrame(0, 1, tags, nil)
+	l2 := 14 + 4*tags
+	optStart := l2 + 28 + 240
+	// option area: no Option 82, or an Option 82 header at each position the program inspects (3, 12..19) with
+	// arbitrary length / sub-option bytes and a circuit-id length from the boundary set
+	full[optStart+2] = byte(1 + 2*ndPick("request", 2))
+	if c := ndPick("opt82-at", 10); c > 0 {
+		pos := 3
+		if c > 1 {
+			pos = 10 + c // 12..19
+		}
+		full[optStart+pos] = 82
+		full[optStart+pos+1] = ndU8("opt82.len")
+		full[optStart+pos+2] = ndU8("opt82.sub")
+		full[optStart+pos+3] = []byte{0, 1, 5, 32, 33, 255}[ndPick("cid.len", 6)]
+	}
+	n := optStart - 4 + ndPick("cut", 72) // from inside the magic cookie to the full 64-byte option area
+	vAssume(n <= len(full))
+	pkt := full[:n]
+	orig := append([]byte(nil), pkt...)
+	v := vBPFRun("dhcp_fastpath", "dhcp_fastpath_prog", "xdp", pkt)
+	out := vBPFPacket()
+	vAssert(v == xdpPass || v == xdpTx || v == xdpDrop, "undefined verdict")
+	if v == xdpPass {
+		vAssert(len(out) == len(orig) && bytes.Equal(out, orig), "frame handed to userspace differs from the frame received")
+	}
+	vReach("end")
+}
+
+func init() { vHarness["VerifC07_DHCPTruncated"] = VerifC07_DHCPTruncated }
